@@ -49,6 +49,8 @@ def check(ctx):
     ctx.attempt(_inc, 'RX-LANG', 'through_regex', F.THROUGH, thr, 'through words (any case)')
     ctx.attempt(emitted_trs_accepted)
     ctx.attempt(deduce_sees_every_section_word)
+    from .c04 import whitespace_only          # description blocks come back verbatim
+    ctx.attempt(whitespace_only)
     ctx.attempt(_deduce_on_preprocessed)
     ctx.attempt(_in_between)
     from .c05 import _range_algebra           # 'Sections 9 - 12' must expand for the round trip to hold
